@@ -759,15 +759,8 @@ def check_units(ctx, lib):
     elif ok:
         vals = dict(zip(agg[0]["rv"]["fnames"], agg[0]["rv"]["ops"]))
         line_l, col_l = vals["line"].get("l"), vals["column"].get("l")
-        # follow single copies
-        def root(l):
-            for _ in range(3):
-                ws = b.assigns_to(l)
-                if len(ws) == 1 and ws[0][1] != "term" and ws[0][2]["k"] == "use" and ws[0][2]["op"].get("k") in ("copy", "move") and not ws[0][2]["op"]["p"]:
-                    l = ws[0][2]["op"]["l"]
-                else:
-                    break
-            return l
+        from ..analysis import copy_root
+        root = lambda l: copy_root(b, l)
         line_l, col_l = root(line_l), root(col_l)
         cf = CharFlow(b, ch[0], ch[1], o)
         nl = ISet([(10, 10)])
